@@ -2,7 +2,9 @@
 #![allow(clippy::too_many_arguments, clippy::needless_range_loop, clippy::type_complexity)]
 
 pub mod api;
+pub mod lanes;
 pub mod log;
+pub mod machines;
 pub mod mon;
 pub mod prng;
 pub mod refmodel;
